@@ -8,12 +8,24 @@ import tokenizer_proofs  # noqa: E402
 import end_proof  # noqa: E402
 sys.path.insert(0, os.path.join(os.path.dirname(os.path.abspath(__file__)), '..', 'C03'))
 import trim_proofs  # noqa: E402
+sys.path.insert(0, os.path.join(os.path.dirname(os.path.abspath(__file__)), '..', '..', 'tools'))
+from prover import Proof  # noqa: E402
+RMBLANK = Proof('remove_blank_lines_between_imports', impl='contracts/C17/rmblank.impl.cpp', spec='contracts/C17/rmblank.spec.c', harness='h_remove_blank_lines_between_imports',
+                enforce='remove_blank_lines_between_imports/remove_blank_lines_between_imports_contract', canaries=2, frame_is_property=True,
+                rules={'remove_blank_lines_between_imports': [('D8', [(r'chunks\[idx\]', 'elem(chunks, idx)', 'array element read through the list model: elements of a chunk list are pairwise distinct')])]},
+                loops=[dict(fn='remove_blank_lines_between_imports', id=0, vars=['idx', 'num_chunks'], assigns='idx, Chunk_m_nlCount(NL_OTHER), CPD(changes)',
+                            inv='idx <= num_chunks - 1 && num_chunks >= 2 && num_chunks == g_n && CPD(changes) >= %s && CPD(changes) <= %s + (long)idx && (idx > 0 ==> Chunk_m_nlCount(NL_OTHER) == 1) && (idx == 0 ==> Chunk_m_nlCount(NL_OTHER) == %s)' % ('__CPROVER_loop_entry(CPD(changes))', '__CPROVER_loop_entry(CPD(changes))', '__CPROVER_loop_entry(Chunk_m_nlCount(NL_OTHER))'),
+                            decreases='num_chunks - idx')],
+                functions=['sorting.cpp:remove_blank_lines_between_imports'], expect=['remove_blank_lines_between_imports_contract.postcondition', 'loop_invariant_step', 'assigns'],
+                assumed=['the chunks of the array are pairwise distinct chunks of the list (model: the last one, and any other one)', 'Chunk::GetNextNl: the newline that ends the line of the import'],
+                note='the frame IS the claim here: the newline after the last import is not in the assigns clause',
+                mutants=[('also_after_the_last_import', r'idx < \(num_chunks - 1\)', 'idx < num_chunks', 'assigns|loop_invariant|postcondition')])
 NEED_OPTIONS = True
-PROOFS = output_proofs.select(['add_spaces', 'add_char', 'add_text_regular', 'add_text_ascii', 'output_to_column', 'cmt_output_indent', 'next_tab_column', 'calc_next_tab_column_ts*']) + tokenizer_proofs.select(['tokenize_strip']) + [outtext_proofs.iteration_proof(), end_proof.end_proof(), trim_proofs.trim_proof()]
+PROOFS = output_proofs.select(['add_spaces', 'add_char', 'add_text_regular', 'add_text_ascii', 'output_to_column', 'cmt_output_indent', 'next_tab_column', 'calc_next_tab_column_ts*']) + tokenizer_proofs.select(['tokenize_strip']) + [outtext_proofs.iteration_proof(), end_proof.end_proof(), trim_proofs.trim_proof(), RMBLANK]
 EXPLANATION = ('Kernel of C17: add_char() buffers blanks (cpd.spaces) and writes them only in front of a following character; a TAB after a blank is '
                'expanded to blanks when the effective indent_with_tabs (pp_indent_with_tabs inside a preprocessor line unless -1) is 0 and the text is not a literal; '
                'add_text(text) is exactly the sequence add_char(text[i]).')
-K = ['K8 tokenize() strip loop: the text of every chunk that is not disabled-region text ends without blank/tab (or in backslash + one blank, kept on purpose); only blanks/tabs are removed', 'K7 cmt_trim_whitespace: the comment line handed on never ends in a blank or a tab (inside a preprocessor line it may end in the continuation backslash)', 'K1 add_char: (a) blank buffered, nothing written; (b) visible char: pending blanks then the char; (c) LF: pending blanks then one line break; (d) blanks reach the sink only via add_spaces',
+K = ['K9 remove_blank_lines_between_imports (include grouping): only the newlines between two imports of a block are set to one line break; the newline after the last import (the end-of-file newline when the block ends the file) is not written', 'K8 tokenize() strip loop: the text of every chunk that is not disabled-region text ends without blank/tab (or in backslash + one blank, kept on purpose); only blanks/tabs are removed', 'K7 cmt_trim_whitespace: the comment line handed on never ends in a blank or a tab (inside a preprocessor line it may end in the continuation backslash)', 'K1 add_char: (a) blank buffered, nothing written; (b) visible char: pending blanks then the char; (c) LF: pending blanks then one line break; (d) blanks reach the sink only via add_spaces',
      'K2 tab-after-space guard uses the right option (pp variant only inside CT_PREPROC and unless -1)', 'K1e add_text == sequence of add_char calls',
      'K3 output_to_column(col, allow_tabs): reaches exactly max(old column, col), issues only non-literal blanks/tabs, tabs only if allow_tabs, and never a tab after a blank within the call',
      'K6 output_text (one iteration): first chunk of a line: output_to_column gets allow_tabs == false whenever the effective setting (pp_indent_with_tabs on preprocessor lines unless -1, else indent_with_tabs) is 0, tabs only up to the indent level for 1; blank-line indentation and backslash-newline columns likewise',
